@@ -17,7 +17,7 @@ INVS = ["NoCloseWhileInUse", "CloseAtMostOnce", "NoDeadGrant", "AtMostOneReply",
 
 CONFIGS = [
     dict(name="two-on-one-max1", models=["m1", "m2"], modelof=dict(q1="m1", q2="m1", q3="m2"), optof=dict(q1=0, q2=0, q3=0),
-         keepof=dict(q1=-1, q2=-1, q3=-1), maxrunners=1, queue=3, unload=True, ping=False, loadfail=True, tinygpu=False),
+         keepof=dict(q1=-1, q2=-1, q3=-1), maxrunners=1, queue=3, unload=True, ping=True, loadfail=True, tinygpu=False),
     dict(name="options-differ-max2", models=["m1", "m2"], modelof=dict(q1="m1", q2="m1", q3="m2"), optof=dict(q1=0, q2=1, q3=0),
          keepof=dict(q1=1, q2=0, q3=-1), maxrunners=2, queue=2, unload=True, ping=False, loadfail=False, tinygpu=True),
     dict(name="three-models-max2", models=["m1", "m2", "m3"], modelof=dict(q1="m1", q2="m2", q3="m3", q4="m1"),
